@@ -136,7 +136,7 @@ PROPS = {
     "C15": dict(
         functions=[PA + RFN + "handleDisconnect", D_ + "DispatcherBase.reconnect", PA + "WebSocketApp._start_ping_thread",
                    PA + "WebSocketApp._stop_ping_thread", K + "WebSocket.shutdown", PA + RFN + "read", PA + RFN + "teardown",
-                   SETSOCK + "@@reconnect=on", PA + "WebSocketApp.close"],
+                   SETSOCK + "@@reconnect=on", PA + "WebSocketApp.close", K + "WebSocket.recv_data_frame"],
         functions_thorough=[SETSOCK, PA + "WebSocketApp.run_forever"],
         lemmas=[], bounded=[appsim.bounded("C15")],
         trusted_base=[T_TRANSPORT, T_CB, T_SEL, T_THREAD, "external dispatcher (rel) methods read/timeout/signal/abort are assumed contracts",
